@@ -252,7 +252,19 @@ def _prelude_streams():
         "oversize_control": B(wire.PING, b"p" * 126),
         "ping_then_eof": B(wire.PING, b"last"),
         "nothing": b"",
+        # compressed traffic (the earlier connection accepts permessage-deflate whenever the client offers it;
+        # otherwise these are RSV1 violations - one more abnormal ending)
+        "compressed_message_then_open_fragment": _compressed_prelude(False),
+        "compressed_bfinal_message": _compressed_prelude(True),
     }
+
+
+def _compressed_prelude(final):
+    from . import wire, deflateref
+    peer = deflateref.Peer()
+    one = peer.compress(b"history of the earlier connection " * 6, final=final)
+    two = peer.compress(b"history of the earlier connection, continued " * 4)
+    return wire.build_frame(wire.TEXT, one, rsv1=1) + wire.build_frame(wire.BINARY, two[:len(two) // 2], rsv1=1, fin=0)
 
 
 PRELUDE_REPLIES = {
@@ -275,6 +287,8 @@ def prelude(spec, reply=None):
     if kind in PRELUDE_REPLIES:
         parts = [["reply", PRELUDE_REPLIES[kind]]]
     else:
-        parts = [["reply", reply], ["bytes", _prelude_streams()[kind]]]
+        parts = [["reply", reply] if reply is not None else ["reply_auto"], ["bytes", _prelude_streams()[kind]]]
     script = [["wait_request"], ["stream", parts, "whole", 0.0], [spec.get("end", "eof"), 0.0]]
-    return {"attempts": [{"script": script}], "same_object": bool(spec.get("same"))}
+    # the earlier connection's application sent something too (compressed when the extension is on)
+    reactions = [{"when": ["event", "ready", 0], "do": [["send_text", "earlier connection " * 3], ["send_binary", "00ff" * 10]]}]
+    return {"attempts": [{"script": script}], "reactions": reactions, "same_object": bool(spec.get("same"))}
